@@ -104,6 +104,9 @@ HARNESS = {
     "h_par":     (["engine/h_par.cpp"], ["smt", "json"], ["-lgmpxx", "-lgmp", "-lpthread"], []),
     # libFuzzer targets (configuration `fz` only): no rapidcheck driver, linked with -fsanitize=fuzzer
     "fz_lang":   (["engine/fz_lang.cpp"], ["riddle", "smt", "json"], [], []),
+    # the tape-driven cases of h_arith / h_lang as libFuzzer targets (engine/pbt_fuzz.h): the fuzzer's bytes are the tape
+    "fz_arith":  (["engine/h_arith.cpp"], ["smt", "json"], ["-lgmpxx", "-lgmp"], ["-DPBT_FUZZ"]),
+    "fz_tlang":  (["engine/h_lang.cpp"], ["riddle", "smt", "json"], ["-lgmpxx", "-lgmp"], ["-DPBT_FUZZ"]),
 }
 
 
@@ -125,7 +128,8 @@ def build_harness(cfg, name):
     common = [comp, "-std=gnu++17"] + opt.split() + cxx.split() + ["-D" + GUARD, "-DVERIF_CFG=\"%s\"" % cfg] + defs + include_flags(d)
     if name.startswith("fz_"):
         src = [os.path.join(VERIF, s) for s in srcs]
-        newest = max([os.path.getmtime(x) for x in src] + [os.path.getmtime(os.path.join(libdir, f)) for f in os.listdir(libdir)])
+        hdrs = [os.path.join(dp, fn) for root in (os.path.join(VERIF, "engine"), os.path.join(VERIF, "oracle")) for dp, _, fns in os.walk(root) for fn in fns]
+        newest = max([os.path.getmtime(x) for x in src + hdrs] + [os.path.getmtime(os.path.join(libdir, f)) for f in os.listdir(libdir)])
         if not os.path.exists(out) or os.path.getmtime(out) < newest:
             cmd = [c.replace("fuzzer-no-link", "fuzzer") for c in common] + src + ["-o", out, "-L" + libdir, "-Wl,-rpath," + libdir] + ["-l" + l for l in libs] + extra
             run(cmd, log)
